@@ -294,7 +294,7 @@ package httpgen
 // every RPC gets exactly one mux.Handle line, and its pattern is "<verb> <path>" with the verb and path the deciding
 // functions return for that RPC; the verb handed to BindingMiddleware (which decides whether a body is read) is the same verb
 //@ func (g *Generator) generateService(gf *protogen.GeneratedFile, file *protogen.File, service *protogen.Service) (err error)
-//@   requires service != nil && file != nil
+//@   requires service != nil
 //@   modifies *
 //@   at-call P:config.mux.Handle( requires route_as_decided: line == "config.mux.Handle(\"" + g.getHTTPMethod(method) + " " + g.getMethodPath(method, g.getServiceBasePath(service), file.GoPackageName) + "\", " + annotations.LowerFirst(method.GoName) + "Handler)"
 //@   at-call "P:", config.errorHandler," requires middleware_verb_as_decided: line == "\"" + g.getHTTPMethod(method) + "\", config.errorHandler,"
